@@ -132,7 +132,8 @@ def clientStep (st : ClientState) (tok : List String) (impl : String) : ClientSt
       let (m', stp, ev) := updateAll st.m cfgs now
       let evs := implEvents impl
       let p1 := st.lastCfgs != some cfgs || evs.isEmpty
-      let p2 := dup == 1 || C19.updHoldsOn st.m.proxies cfgs evs
+      -- (since fix eab68f8 the predicate applies to duplicated names as well)
+      let p2 := C19.updHoldsOn st.m.proxies cfgs evs
       ({ st with m := m', stopped := st.stopped ++ sortByName stp, lastCfgs := some cfgs },
         verdictOf (renderEvents ev) impl (some (p1 && p2)))
     | _, _, _ => (st, .bad "upd")
